@@ -17,7 +17,7 @@ CHECKS = {
               "watchdog, progress counters equal the recorded trace at every quiescent point, inspect returns all chains with the recorded "
               "lengths, a completed run records exactly num_tune+num_draws draws per chain in order and equals the uninterrupted reference, "
               "an aborted run returns prefixes of the reference. A second part issues the commands at generated times against freely running "
-              "chains (delay plan inside the density)."),
+              "chains (delay plan inside the density). A third of the scripts finish by polling wait_timeout(0); zero-draw runs (num_tune = num_draws = 0) are generated."),
         design_ref="DESIGN.md section 3, C11",
         note=("Interleavings inside blocking calls, mutex acquisition and rayon scheduling are not controlled; liveness is a 10 s watchdog per step "
               "(the gated run is deterministic, so a miss is reported as a violation). No hook in nuts-rs is needed for the gates."),
@@ -111,7 +111,7 @@ CHECKS = {
               "exp-gamma). Per coordinate the mean, the variance and the empirical CDF at the true 5/25/50/75/95 % quantiles are compared with "
               "the truth using batch-means standard errors (80 batches): |z| <= 7, ESS >= 200, no post-warmup divergence on well-conditioned "
               "Gaussians. The momentum drawn at the start of each trajectory is observed through a recording Math wrapper: unit scale "
-              "argument, KS test against N(0,1), mean/variance, lag-1 correlation and correlation with the whitened position."),
+              "argument, KS test against N(0,1), mean/variance, lag-1 correlation and correlation with the whitened position. The momentum part also requires every drawn momentum to be read, exactly as drawn, by a velocity kick before the next draw; correlated targets reach dimension 24."),
         design_ref="DESIGN.md section 3, C04",
         note=("Statistical: under the null each test fails with probability < 1e-9 (calibrated: max |z| 4.8 over 80 000 tests on the Euclidean "
               "presets), about 1e-5 per run. Sensitive to spread errors of roughly 15 % (quick) / 5 % (thorough), not to small biases. Three "
@@ -126,7 +126,7 @@ CHECKS = {
               "after every refresh, new momentum and reported kinetic-energy change equal to the documented closed form (double-double), "
               "num_steps = max(1, round(f L / eps)) for the step size in force (>= and equal integration time under dynamic retry), "
               "energy_change = sum of kinetic-energy changes minus log-density change, divergent draws keep the position and draw and "
-              "normalise a fresh momentum, the Euclidean -> microcanonical switch happens exactly at the configured draw with a fresh momentum."),
+              "normalise a fresh momentum, the Euclidean -> microcanonical switch happens exactly at the configured draw with a fresh momentum. One case in eight runs with momentum_decoherence_length = infinity (no refresh)."),
         design_ref="DESIGN.md section 3, C18",
         note=("The closed form is judged for delta = step |g| / (d-1) <= 30 and finite non-zero gradients. Energy bookkeeping is judged "
               "for microcanonical draws without retry and without a transformation change since the previous draw."),
@@ -142,7 +142,7 @@ CHECKS = {
               "background (nothing older than two windows), windows grow geometrically and never shrink, everything is frozen in the final "
               "window, updates respect the update frequency, and the step-size search is re-run exactly at the first transformation change. "
               "Hook-free: the dual-averaging recursion is replayed from the reported step sizes to decide which acceptance statistic drove "
-              "each update; in the final window it must be the symmetric one."),
+              "each update; in the final window it must be the symmetric one. Added after seeded-change rounds: the acceptance-statistic replay covers the Adam method, and dual-averaging / Adam options and the initial step size are generated (non-default in half of the cases)."),
         design_ref="DESIGN.md section 3, C09",
         note=("Both next-window sizes (round(w*growth) and max(w+1, round(w*growth))) are accepted because documentation and code differ for "
               "growth 1.0; a switch decision on which the two disagree is not judged. A declined low-rank update (numerical failure) counts "
@@ -158,7 +158,7 @@ CHECKS = {
               "(spectrum of J Sigma J' within the cut-off band, whitened gradient = -position for cut-off 1). Robustness: windows with "
               "constant, zero, 1e+-300, NaN and +-inf entries must leave every scale finite and > 0, scale x inverse = 1, log-determinant "
               "finite, and invalid coordinates (diagonal) / the whole update (low-rank) unchanged bit-for-bit. End to end (public API): "
-              "fisher_distance vanishes on product Gaussians once the first estimate is in use."),
+              "fisher_distance vanishes on product Gaussians once the first estimate is in use. Added after seeded-change rounds: targets with independent coordinates are judged exactly under the default cut-off; a few-draws part (3 <= n <= d + 1) requires whitened gradient = -whitened position on the window's own draws; changed scales must come with a new transformation id."),
         design_ref="DESIGN.md section 3, C08",
         note=("Low-rank exactness carries the estimator's own regularisation error (about gamma * lambda_max^2 / smin(XX')); cases where it "
               "exceeds 2 % are skipped. The diagonal estimator clamps variances to [1e-20,1e20]; equivariance is judged inside that range. "
@@ -201,7 +201,7 @@ CHECKS = {
               "both occur) are run through the public API and every draw's statistics are checked against the declared schema: names "
               "and order, value variant vs declared type, element count vs declared dimension sizes, presence of optional statistics "
               "exactly when their option is on, divergence fields exactly on divergent draws, transformation-update fields exactly on "
-              "draws after which the transformation in force changes (with the right id), counters +1 per draw, constant chain id."),
+              "draws after which the transformation in force changes (with the right id), counters +1 per draw, constant chain id. One history in ten has num_tune 0 or 1."),
         design_ref="DESIGN.md section 3, C16",
         note=("Duplicate statistic names (the MCLMC presets declare 'tuning' twice) are not excluded by the property and are recorded "
               "as an observation only. The update event of draw 0 reports the transformation installed at initialisation."),
@@ -228,7 +228,7 @@ CHECKS = {
               "injected at evaluation k. For fixed runs every k and every kind is enumerated; generated runs add random k and pairs of "
               "faults. Oracle: a trajectory fault makes that draw divergent (Progress and stats, with message) and the returned position is "
               "the previous draw or a state integrated before k; a search-trial fault is discarded; an unrecoverable fault makes exactly the "
-              "call that issued evaluation k return Err; no panic; all later draws satisfy the C03 draw predicates."),
+              "call that issued evaluation k return Err; no panic; all later draws satisfy the C03 draw predicates. Added after seeded-change rounds: fault kind EnergyRamp (the reported log-density drops by 700 per evaluation: no single step exceeds the default threshold but the error relative to the trajectory start does) - the trajectory must end with a divergence at the second faulty leapfrog."),
         design_ref="DESIGN.md section 3, C05",
         note=("A fault while a start point is evaluated (set_position, or the base point of the re-run step-size search) may give Ok or Err - "
               "the property leaves it open; only panics / non-finite positions are judged there. For two faults only the generic invariants "
@@ -243,7 +243,7 @@ CHECKS = {
               "and depth / n_steps / index / maxdepth flag / energy error must satisfy the stated inequalities. Hook part: nuts::draw is "
               "executed with a recording collector and an independent reference tree builder replays the doubling, recomputing the U-turn "
               "criterion for every balanced block: the trajectory must stop exactly at the first block that turns, at a divergence or at "
-              "maxdepth, with the right flags, and the returned state must be an unchanged state of the accepted tree."),
+              "maxdepth, with the right flags, and the returned state must be an unchanged state of the accepted tree. Added after seeded-change rounds: the maxdepth_reached statistic is judged against a witness chain with the same seed and maxdepth 14; the audit runs in dimensions up to 64 and predicts divergences from the recorded energies (an accepted state more than max_energy_error above the trajectory start is a violation)."),
         design_ref="DESIGN.md section 3, C03",
         note=("The audit's criterion is the three-test criterion named in the property anchors. U-turn products within 1e-9 of zero are "
               "skipped. Start points with non-finite density or zero gradient are outside the domain. Histories that need more than 400k "
@@ -258,7 +258,7 @@ CHECKS = {
               "probability 2^-n, the run from each selectable state with mirrored directions rebuilds the same states / depth / stop "
               "reason, and pi(z)P(z->z') = pi(z')P(z'->z) to 1e-6 for every selectable pair (maxdepth <= 3 quick, 4 thorough). Deep trees "
               "(depth <= 8) are checked for trajectory symmetry with random scripts. Exploration: the quantifier ranges over all "
-              "densities, states and step sizes."),
+              "densities, states and step sizes. One case in eight runs the ExactNormal integrator on the Gaussian it is exact for, where sub-trees carry bit-identical weights."),
         design_ref="DESIGN.md section 3, C01",
         note=("Assumes every RNG request is used as a monotone threshold on a uniform word (probed per node; a failed probe skips the "
               "case). U-turn decisions within 1e-7 of their threshold and orbits with measured sensitivity > 1e6 are skipped and "
